@@ -63,8 +63,16 @@ void h_dgstrs(void)
     Us.colptr = ucolptr; Us.rowind = urowind; Us.nzval = unzval;
     Bs.nzval = bval;
     L.Store = &Ls; U.Store = &Us; B.Store = &Bs; stat.ops = ops;
+#ifdef DG_BOX_N
+    /* bounded stand-in (unit dgstrs_notrans_b): the box fixes n and nrhs; the SAME values as constants so that the loops over
+     * rows and right-hand sides have concrete bounds for the symbolic executor */
+    L.nrow = DG_BOX_N; B.ncol = 2;
+#endif
     dgstrs(trans, &L, &U, perm_c, perm_r, &B, &stat, &info);
 }
 
 /* entry point of unit dgstrs_notrans (same harness, variant NOTRANS) */
 void h_dgstrs_notrans(void) { h_dgstrs(); }
+
+/* entry point of unit dgstrs_notrans_b (bounded stand-in, same harness) */
+void h_dgstrs_notrans_b(void) { h_dgstrs(); }
